@@ -363,7 +363,7 @@ def v_trace(job, r):
 def run(ck):
   quick = ck.quick
   # ---- M ------------------------------------------------------------------------------------------
-  ck.mc("OCO_MC", "OCO_MC" if quick else "OCO_MCT", required_actions=["OgdStep", "Ada", "Fd"])
+  ck.mc("OCO_MC", "OCO_MC" if quick else "OCO_MCT", required_actions=["OgdStep", "Ada", "Fd", "Rebind"])
   # ---- R: exported behaviours ------------------------------------------------------------------------
   beh = ck.gen("OCO_Gen", "OCO_Gen" if quick else "OCO_GenT", timeout=2400)
   sim = ck.gen("OCO_Gen", "OCO_GenS", simulate=60 if quick else 600, depth=7)
